@@ -521,6 +521,14 @@ pub fn c01(ctx: &mut Ctx) {
     run(ctx, bytes::giants_space(), Mode::Giant, false);
     run(ctx, bytes::giants_runs_space(), Mode::Giant, false);
     run(ctx, bytes::long_chain_space(), Mode::All, false);
+    if !super::common::is_frames_child() {
+        let nd = super::gens::dense_bound(ctx.tier);
+        ctx.bound("every count", format!("datagrams of every tile count 1..={n} x 4 tails; exactly framed packets of every size 4..={b} bytes (2400 in the quick tier, 9216 in the thorough one) x 9 types x 4 padding variants; the reference images of the every-count configuration spaces (SDES chunks of 0..={n} items, NACK / SLI / FIR lists of 0..={n} entries, RPSI strings of 0..={n} bytes, APP and unknown payloads of 0..={n} words)", n = nd, b = "N"));
+        run(ctx, bytes::dense_chain_space(nd), Mode::All, false);
+        // every accessor of every parser on every size: the cost is quadratic in the bound, so a smaller one here
+        // (C08 / C12 / C18 run the framing oracles over sizes up to the full bound)
+        run(ctx, bytes::dense_size_space(ctx.tier.pick(600, 2304)), Mode::All, false);
+    }
     // iterator call histories ("all accessor/iterator call sequences"): every iterator reachable from the base set
     // and from every well-tiled datagram of 1..=3 menu tiles is driven through every sequence of next / nth /
     // take-count calls up to a depth and every ending (collect / count / last / nth(remaining))
